@@ -264,7 +264,7 @@ def run_scenario(arg):
                     pf, vals = fresh_read(work, rr)
                 return vals, dsfs.refs_of(pf), sorted(set(x for x in rr.reads if x not in ("",)))
 
-            if raised is not None and rec.fired is not None and rec.fired[2] == dsfs.MD and dsfs.md_open_index(rec.trace) is not None:
+            if raised is not None and rec.fired is not None and dsfs.summaryish(rec.fired[2]) and dsfs.md_open_index(rec.trace) is not None:
                 # _metadata was write-opened and the failing call names it: the summary IS being rewritten (outside the
                 # property) and may be torn; nothing is claimed about such a state, so it is not opened
                 r["read"] = "not-read(fault inside the rewrite of _metadata)"
@@ -344,7 +344,7 @@ def judge(sc, res, r):
         if r["read"] != "new":
             problems.append(("returned-but-not-new-content",
                              "append returned normally but a fresh open reads %s content (%s)" % (r["read"], r.get("read_detail"))))
-    elif phase == "before_md" or (r["fired"] and r["fired"][2] not in (dsfs.MD, dsfs.CMD)):
+    elif phase == "before_md" or (r["fired"] and not dsfs.summaryish(r["fired"][2])):
         # the failing call came before any write-open of _metadata, or it names a part file / directory (the append was
         # still writing data, so by "parts first, summary last" the summary must not have been touched yet)
         if phase != "before_md":
@@ -416,6 +416,8 @@ def run(ctx):
         ctx.correspondence("FsPaths.find_max_part ~ writer.find_max_part", {"paths": l}, m, real_find_max_part(l))
     model_trace = {"equal": 0, "different": 0, "examples": []}
     strict = {"true": 0, "false": 0}
+    sym_info = {"true": 0, "false": 0}
+    gen_seen = {}
     cmds, meta = [], []
     for res in results:
         sc = by_id[res["id"]]
@@ -466,6 +468,8 @@ def run(ctx):
             meta.append(("safe", short, r))
             cmds.append(("safe_trace", [p.encode() for p in refs], dsfs.sx_trace([(c[0], c[1], b"") if c[0] == "write" else c for c in r["trace"]])))
             meta.append(("strict", short, r))
+            cmds.append(("safe_trace_gen", [p.encode() for p in refs], dsfs.sx_trace([(c[0], c[1], b"") if c[0] == "write" else c for c in r["trace"]])))
+            meta.append(("gen", short, r))
             # tie 2: what the fresh open opened for reading
             if "read_opens" in r:
                 allowed = set(r["refs_after"]) | {dsfs.MD}
@@ -483,7 +487,8 @@ def run(ctx):
     outs = pq.batch(cmds)
     if len(outs) != len(cmds):
         raise RuntimeError("pqref answered %d of %d commands" % (len(outs), len(cmds)))
-    for (kind, short, r), o in zip(meta, outs):
+    order = sorted(range(len(meta)), key=lambda i_: 0 if meta[i_][0] == "gen" else 1)
+    for (kind, short, r), o in [(meta[i_], outs[i_]) for i_ in order]:
         if kind == "model":
             mt = [[bytes(x) if isinstance(x, (bytes, bytearray)) else x for x in c] for c in o[0]] if isinstance(o, list) and o else o
             same = mt == [[x.encode() if isinstance(x, str) else x for x in c] for c in r]
@@ -495,7 +500,23 @@ def run(ctx):
             # information: the stricter relation `safe_trace` (_metadata before _common_metadata), which the code implements today
             strict["true" if o == 1 else "false"] += 1
             continue
+        if kind == "gen":
+            # the GENERAL commit-point relation (Dataset/CrashGen.v; C19_gen_* theorems): what the property needs; a code change
+            # that stays inside it (e.g. _metadata written to a temporary file and renamed) keeps this correspondence
+            ok = ctx.correspondence("check_safe_gen(recorded trace of the real append) = true", short, 1, o)
+            if not ok and len(ctx.broken) and "trace" not in ctx.broken[-1]:
+                ctx.broken[-1]["trace"] = dsfs.trace_json(r["trace"], 200)
+            gen_seen[(short["scenario"], short["k"], short["variant"], str(short.get("after_failed")), short.get("read_k"))] = o
+            continue
         if kind == "safe":
+            # today's code is also inside the stricter relation (summary files written in place, in either order); information,
+            # and a run-time check that the general relation contains it (sym accepted => gen accepted)
+            sym_info["true" if o == 1 else "false"] += 1
+            g = gen_seen.get((short["scenario"], short["k"], short["variant"], str(short.get("after_failed")), short.get("read_k")))
+            if o == 1 and g != 1:
+                ctx.correspondence("check_safe_trace_sym accepted => check_safe_gen accepted (the general relation contains the strict one)", short, 1, g)
+            continue
+        if kind == "safe_old":
             ok = ctx.correspondence("check_safe_trace_sym(recorded trace of the real append) = true", short, 1, o)
             if not ok and len(ctx.broken) and "trace" not in ctx.broken[-1]:
                 ctx.broken[-1]["trace"] = dsfs.trace_json(r["trace"], 200)
@@ -506,6 +527,7 @@ def run(ctx):
                                dict(sorted(dsfs.hashes(r["snap1"]).items())))
     pq.close()
     ctx.extra["strict_safe_trace_on_recorded_traces"] = strict
+    ctx.extra["safe_trace_sym_on_recorded_traces"] = sym_info
     ctx.extra["model_trace_vs_recorded_fault_free_trace"] = model_trace
     ctx.notes.append("Ops.append_trace (witness of the relation) equals the recorded fault-free call trace in %d of %d scenarios (information, not an obligation)" % (
         model_trace["equal"], model_trace["equal"] + model_trace["different"]))
